@@ -152,7 +152,7 @@ def split_window(win, paylen):
 def oracle_strings(snap, msg):
     """date and message-id digits as the implementation produced them (validated shape), or None"""
     date = msgid = None
-    m = re.search(rb'>; (.{31})\n', msg)
+    m = re.search(rb'>; (.{31})', msg, re.S)
     if m and DATE_RE.match(m.group(1)):
         date = m.group(1)
     if snap:
@@ -249,7 +249,7 @@ def compare_window(win, m, paylen, handoff, follow_expected_rest, reads_all):
                 hm, mm = hm[:k + 3], mm[:max(k + 3, 0)] if len(hm) >= k + 3 else mm
             if not mm.startswith(hm) or not me.startswith(he):
                 return 'what the child read is not a prefix of what the model says was written'
-    if follow_expected_rest is not None and m['rest'] != follow_expected_rest:
+    if follow_expected_rest is not None and '354' in m['codes'] and m['rest'] != follow_expected_rest:
         return 'reader results left for the command loop: model=%s expected=%s' % (m['rest'][:6], follow_expected_rest[:6])
     return None
 
@@ -372,3 +372,17 @@ def run_model(ctx, lines):
     with ThreadPoolExecutor(max_workers=n) as ex:
         list(ex.map(work, [g for g in groups if g]))
     return out
+
+
+def expected_rest(stream, paylen):
+    """what the model must leave for the command loop behind a consumed payload: the following
+    lines, then the end of the connection; None when the remainder is not made of plain CRLF lines
+    (then the reader's own results decide and nothing is predicted here)"""
+    rem = stream[paylen:]
+    if not rem.endswith(b'\r\n') and rem:
+        return None
+    ls = rem[:-2].split(b'\r\n') if rem else []
+    for l in ls:
+        if b'\r' in l or b'\n' in l or len(l) > 999:
+            return None
+    return ['L' + (l.hex() or '-') for l in ls] + ['DIE']
